@@ -300,6 +300,7 @@ func (f *Frame) dispatch(ins ssa.Instruction, call *ssa.CallCommon, ct *callTarg
 		return f.inlineCall(ins, ct, st, resType)
 	}
 	// 4. havoc with inferred frame
+	f.havocPointees(st, ct, call)
 	ms := f.eng.calleeMods(ct.fn)
 	if isRepoFn(ct.fn) {
 		f.root.notes["callee without contract abstracted (arbitrary results, inferred frame): "+name] = true
@@ -616,7 +617,9 @@ func (f *Frame) appendSlices(st *State, s, t *Term) *Term {
 		for i := int64(0); i < n; i++ {
 			arr = tStore(arr, tAdd(slLen(s), tInt(i)), tSelect(slArr(t), tInt(i)))
 		}
-		return mkSlice(s.Sort, arr, tAdd(slLen(s), tInt(n)), tOr(slNN(s), tBool(n > 0)))
+		res := mkSlice(s.Sort, arr, tAdd(slLen(s), tInt(n)), tOr(slNN(s), tBool(n > 0)))
+		f.appendLemmas(s, t, res, n)
+		return res
 	}
 	arr := fresh("apparr", slArr(s).Sort)
 	b, k := freshBVar("k", sortInt)
@@ -1068,4 +1071,96 @@ func runParallelModel(f *Frame, ins ssa.Instruction, call *ssa.CallCommon, ct *c
 		f.root.hyps = append(f.root.hyps, tImp(st.pc, q))
 	}
 	return r
+}
+
+// pureExternal: library packages whose functions do not write through their arguments (formatting, logging,
+// string/number helpers, clocks, synchronisation, file status).
+func pureExternal(fn *ssa.Function) bool {
+	p := ""
+	if fn.Pkg != nil {
+		p = fn.Pkg.Pkg.Path()
+	} else if fn.Signature.Recv() != nil {
+		p = fn.Signature.Recv().Type().String()
+	} else {
+		p = fn.String()
+	}
+	p = strings.TrimLeft(p, "(*")
+	for _, pre := range []string{"github.com/rs/zerolog", "fmt", "strings", "strconv", "errors", "time", "math", "slices", "sort", "os", "context", "sync", "bytes", "unicode", "path", "net", "github.com/yandex/mysync/internal/log", "log/syslog", "github.com/google/uuid", "regexp", "sync/atomic", "github.com/go-mysql-org/go-mysql/mysql"} {
+		if p == pre || strings.HasPrefix(p, pre+".") || strings.HasPrefix(p, pre+"/") {
+			return true
+		}
+	}
+	return false
+}
+
+// havocPointees: a callee that is not under contract may write through pointers it receives. Direct pointer
+// arguments of repo callees are covered by the inferred frame; what the frame inference cannot see is
+//   * pointers boxed into interface values (dest any), for every callee, and
+//   * pointer arguments of external (non-pure) library functions.
+func (f *Frame) havocPointees(st *State, ct *callTarget, call *ssa.CallCommon) {
+	if ct.fn != nil && !isRepoFn(ct.fn) && pureExternal(ct.fn) {
+		return
+	}
+	external := ct.fn == nil || !isRepoFn(ct.fn)
+	for i, a := range ct.args {
+		t, ok := a.(*Term)
+		if !ok {
+			continue
+		}
+		var ptr *Term
+		var et types.Type
+		if strings.HasPrefix(t.Op, "@box$") {
+			if bt, ok := f.eng.boxTypes[t.Op[1:]]; ok {
+				et = derefType(bt)
+				ptr = t.Args[0]
+			}
+		} else if external && i < len(ct.argTypes) {
+			if et = derefType(ct.argTypes[i]); et != nil {
+				ptr = t
+			}
+		}
+		if ptr == nil || et == nil {
+			continue
+		}
+		if _, isIface := et.Underlying().(*types.Interface); isIface && !external {
+			continue
+		}
+		nv := f.havocTyped(st, et, "wrptr").(*Term)
+		cur := st.load(refAddr(ptr, et))
+		// only when the pointer is non-nil does the object exist; writing a havoc value is harmless either way
+		_ = cur
+		st.store(refAddr(ptr, et), nv)
+		f.root.notes["objects reachable through a pointer passed to a callee without contract are havoc-ed (boxed pointers; pointer arguments of non-pure library functions)"] = true
+	}
+}
+
+// appendLemmas: membership facts for res = append(s, t...) with n appended elements. They are consequences of the
+// skolemised definition of contains (so adding them is sound); stating them spares the solver a witness search.
+func (f *Frame) appendLemmas(s, t, res *Term, n int64) {
+	if s.open || t.open {
+		return
+	}
+	es := slArr(s).Sort.Elem
+	cn := "contains$" + sanitize(s.Sort.Name)
+	if _, used := symDecls[cn]; !used {
+		return
+	}
+	C := func(sl, x *Term) *Term { return app(cn, sortBool, sl, x) }
+	bx, x := freshBVar("x", es)
+	var eqs []*Term
+	for i := int64(0); i < n; i++ {
+		e := tSelect(slArr(t), tInt(i))
+		f.root.hyps = append(f.root.hyps, C(res, e))
+		eqs = append(eqs, tEq(x, e))
+	}
+	f.root.hyps = append(f.root.hyps,
+		mkForallPat([]BVar{bx}, tImp(C(s, x), C(res, x)), []*Term{C(s, x)}, []*Term{C(res, x)}))
+	bx2, x2 := freshBVar("x", es)
+	var eqs2 []*Term
+	for i := int64(0); i < n; i++ {
+		eqs2 = append(eqs2, tEq(x2, tSelect(slArr(t), tInt(i))))
+	}
+	_ = eqs
+	f.root.hyps = append(f.root.hyps,
+		mkForallPat([]BVar{bx2}, tImp(C(res, x2), tOr(append([]*Term{C(s, x2)}, eqs2...)...)), []*Term{C(res, x2)}))
 }
